@@ -53,7 +53,7 @@ def r08_1(prog, out):
     sl = Slicer(prog)
     pid = R.publish_body()
     pi = prog.info(pid)
-    ctr = A.cell("TopicActor", "next_message_id", optional=True)
+    ctr = c09.id_cells(prog)[1]
     if ctr is None:
         out.violation("%s:counter" % prog.short(pid), prog.loc(pid), "the topic actor no longer owns the per-topic message counter: ids are not issued in the order in which "
                       "the actor accepts the messages")
@@ -80,14 +80,43 @@ def r08_1(prog, out):
     # exactly one push of an id per message
     pushes = [bb for bb, t in unit.calls(lambda c: c.path == "std::vec::Vec::<T, A>::push") if (ci.body.operand_ty(t.args[1]) or "") == A.ty("MessageId")]
     key = "%s:one-id-per-message" % name
-    if len(pushes) == 1 and unit.on_every_pass(pushes[0]):
+    # the step may *return* the id next to the message (`.map(|m| (id, Arc::new(m))).unzip()`): one tuple per message
+    ret_tuple = None
+    if not pushes and unit.header is None:
+        ro = ci.trace(0)
+        if ro.kind == "agg" and not ro.path and ci.agg_at(ro.data).j.get("ak") == "tuple":
+            ret_tuple = ci.agg_at(ro.data)
+    if ret_tuple is not None:
+        id_ops = [op for op in ret_tuple.ops if (ci.body.operand_ty(op) or "") == A.ty("MessageId")]
+        arc_ops = [op for op in ret_tuple.ops if ci.trace(op).kind == "call" and ci.call_at(ci.trace(op).data).callee is not None
+                   and ci.call_at(ci.trace(op).data).callee.path == "std::sync::Arc::<T>::new"]
+        if len(id_ops) == 1:
+            out.holds(key, prog.loc(ci.body.id), "the step returns exactly one id per message (collected by unzip)")
+        else:
+            out.violation(key, prog.loc(ci.body.id), "the per-message step returns %d ids per message" % len(id_ops))
+        setter = unit.calls(lambda c: c.target == A.ty("TopicMessage") + "::publish")
+        key = "%s:returned-id=stored-id" % name
+        if id_ops and setter and ci.trace(id_ops[0]).key() == ci.trace(setter[0][1].args[1]).key():
+            out.holds(key, prog.loc(ci.body.id), "the id returned to the publisher is the id stored in the message")
+        elif id_ops and setter:
+            out.violation(key, prog.loc(ci.body.id), "the id returned to the publisher is not the id stored in the message")
+        else:
+            out.undecided(key, prog.loc(ci.body.id), "id / setter not found in the tuple form")
+        key = "%s:one-message-per-message" % name
+        if len(arc_ops) == 1:
+            out.holds(key, prog.loc(ci.body.id), "each message becomes exactly one shared message that is handed on")
+        else:
+            out.violation(key, prog.loc(ci.body.id), "the per-message step does not hand on exactly the one shared message it creates")
+    elif len(pushes) == 1 and unit.on_every_pass(pushes[0]):
         out.holds(key, ci.loc(pushes[0]), "exactly one id is pushed to the response per message, on every path")
     else:
         out.violation(key, prog.loc(ci.body.id), "the per-message step pushes %d id(s) (or not on every path): Publish no longer returns exactly one id per message" % len(pushes))
     # the pushed id is the one stored in the message
     setter = unit.calls(lambda c: c.target == A.ty("TopicMessage") + "::publish")
     key = "%s:returned-id=stored-id" % name
-    if pushes and setter:
+    if ret_tuple is not None:
+        pass
+    elif pushes and setter:
         o1 = ci.trace(ci.call_at(pushes[0]).args[1])
         o2 = ci.trace(setter[0][1].args[1])
         if o1.key() == o2.key():
@@ -110,7 +139,9 @@ def r08_1(prog, out):
     arcs = [bb for bb, t in unit.calls(lambda c: c.path == "std::sync::Arc::<T>::new")]
     key = "%s:one-message-per-message" % name
     handed = False
-    if len(arcs) == 1:
+    if ret_tuple is not None:
+        arcs = []
+    elif len(arcs) == 1:
         if unit.header is None:
             ro = ci.trace(0)
             handed = ro.kind == "call" and ro.data == arcs[0]
@@ -120,7 +151,9 @@ def r08_1(prog, out):
                 o = ci.trace(t.args[1])
                 if o.kind == "call" and o.data == arcs[0] and unit.on_every_pass(bb):
                     handed = True
-    if handed and unit.on_every_pass(arcs[0]):
+    if ret_tuple is not None:
+        pass
+    elif handed and unit.on_every_pass(arcs[0]):
         out.holds(key, ci.loc(arcs[0]), "each message becomes exactly one shared message that is handed on")
     else:
         out.violation(key, prog.loc(ci.body.id), "the per-message step does not hand on exactly the one shared message it creates")
